@@ -261,11 +261,31 @@ func c20(args []string) {
 		}
 		sc := bufio.NewScanner(f)
 		lineNo := 0
+		// consecutive lines with the same "@session=<k>" token run in ONE HermesSession (batch mode), the others alone
+		var sess *hermes.HermesSession
+		sessKey := ""
 		for sc.Scan() {
 			if line := sc.Text(); len(line) > 0 {
-				c20TraceLine(*work, line, lineNo)
+				key := ""
+				for _, t := range splitArgs(line) {
+					if strings.HasPrefix(t, "@session=") {
+						key = t
+					}
+				}
+				if key != sessKey && sess != nil {
+					sess.Close()
+					sess = nil
+				}
+				if key != "" && sess == nil {
+					sess = hermes.NewHermesSession()
+				}
+				sessKey = key
+				c20TraceLine(*work, line, lineNo, sess)
 				lineNo++
 			}
+		}
+		if sess != nil {
+			sess.Close()
 		}
 	}
 }
@@ -368,9 +388,42 @@ func readGwFile(work string, args []string, g *hermes.GlobalVarsMain) (rows []gw
 	return rows, id
 }
 
-func c20TraceLine(work, line string, lineNo int) {
+// runInSession: one batch line in the given (shared) session — as hermes2go does for the lines of a batch file
+func runInSession(session *hermes.HermesSession, workdir string, args []string, logID string) runResult {
+	out := make(chan *hermes.RunReturn, 1)
+	logs := make(chan string, 1000)
+	done := make(chan struct{})
+	var collected []string
+	go func() {
+		for l := range logs {
+			collected = append(collected, l)
+		}
+		close(done)
+	}()
+	session.Run(workdir, args, logID, out, logs)
+	res := <-out
+	close(logs)
+	<-done
+	rr := runResult{Success: res.Success, Logs: collected}
+	if res.Err != nil {
+		rr.Err = res.Err.Error()
+	}
+	return rr
+}
+
+func c20TraceLine(work, line string, lineNo int, session *hermes.HermesSession) {
 	c20SetConfigPhase(work, line)
 	runArgs, confPhase, havePhase := c20Meta(line)
+	// "@gw=series" / "@gw=polygon": the CONFIGURED groundwater source of the run (GroundWaterFrom of its config.yml)
+	expected, haveExpected := hermes.Soilfile, false
+	for _, t := range splitArgs(line) {
+		if t == "@gw=series" {
+			expected, haveExpected = hermes.GWTimeSeries, true
+		} else if t == "@gw=polygon" {
+			expected, haveExpected = hermes.Polygonfile, true
+		}
+	}
+	sourceFails := 0
 	var fileRows []gwRow
 	fileID := ""
 	days := 0
@@ -389,7 +442,17 @@ func c20TraceLine(work, line string, lineNo int) {
 		}
 		days++
 		minL, maxL = math.Min(minL, g.GRW), math.Max(maxL, g.GRW)
-		switch g.GROUNDWATERFROM {
+		mode := g.GROUNDWATERFROM
+		if haveExpected {
+			mode = expected
+			if g.GROUNDWATERFROM != expected {
+				if sourceFails == 0 {
+					oracleFail("gw-source:traced-line-%d:not-the-configured-source zeit=%d configured=%v used=%v grw=%v", lineNo, zeit, expected, g.GROUNDWATERFROM, g.GRW)
+				}
+				sourceFails++
+			}
+		}
+		switch mode {
 		case hermes.GWTimeSeries:
 			if first {
 				from = "gwTimeSeries"
@@ -442,7 +505,12 @@ func c20TraceLine(work, line string, lineNo int) {
 		}
 		first = false
 	}
-	res := runProject(work, runArgs)
+	var res runResult
+	if session != nil {
+		res = runInSession(session, work, runArgs, fmt.Sprintf("[%d]", lineNo))
+	} else {
+		res = runProject(work, runArgs)
+	}
 	hermes.VerifProbe = nil
 	if from == "gwTimeSeries" {
 		ids, rd, rl := []string{}, []int{}, []float64{}
@@ -452,7 +520,8 @@ func c20TraceLine(work, line string, lineNo int) {
 		emit(jobj{"k": "gwtrace", "line": lineNo, "dates": dates, "vals": hxs(vals), "q": zeits, "level": grws,
 			"id": fileID, "row_ids": ids, "row_dates": rd, "row_levels": hxs(rl), "stamps": stamps, "stamp_vals": hxs(svals)})
 	}
-	o := jobj{"k": "run", "line": lineNo, "success": res.Success, "err": res.Err, "days": days, "from": from}
+	o := jobj{"k": "run", "line": lineNo, "success": res.Success, "err": res.Err, "days": days, "from": from, "source_mismatch_days": sourceFails,
+		"shared_session": session != nil}
 	if days > 0 {
 		o["min"], o["max"] = minL, maxL
 	}
